@@ -24,6 +24,7 @@ TITLE = 'Text <-> tree is lossless under every formatting option'
 INDENTS = [None, -1, 0, 1, 3]
 OPTIONS = [(i, c) for i in INDENTS for c in (False, True)]
 OPTIONS_REDUCED = [(None, False), (-1, True), (0, False), (3, True)]
+OPTIONS_WIDE_QUICK = [(None, False), (None, True), (-1, False), (-1, True), (0, False), (1, True), (3, False)]
 METAS = [
     {},
     {'id': '1'},
@@ -54,9 +55,10 @@ GRAPH_TEXTS = ['(a / b)', '(a / b :r (c / d))\n# ::tail 1\n(e / f)']
 def shards(tier, seed):
     out = []
     q = tier == 'quick'
-    out += T.shard_list(3, 2, 3, 'c01wide', empty_nodes=True, extra={'sub': 'trees', 'bounds': 'TREE(3,2,3) wide, empty nodes x 10 options'})
+    out += T.shard_list(3, 2, 3, 'c01wide', empty_nodes=True, extra={'sub': 'trees', 'quick': int(q), 'bounds': 'TREE(3,2,3) wide, empty nodes x ' + ('7 option pairs' if q else '10 option pairs')})
     if q:
-        out += T.shard_list(3, 3, 3, 'mid', empty_nodes=True, extra={'sub': 'trees', 'quick': 1, 'bounds': 'TREE(3,3,3) mid, empty nodes x 4 option pairs'})
+        mid = T.shard_list(3, 3, 3, 'mid', empty_nodes=True, extra={'sub': 'trees', 'quick': 1, 'bounds': 'TREE(3,3,3) mid, empty nodes x 4 option pairs (VERIF_SEED-chosen half)'})
+        out += mid[seed % 2::2]
         out += T.shard_list(4, 4, 4, 'narrow', extra={'sub': 'trees', 'quick': 1, 'bounds': 'TREE(4,4,4) narrow x 4 option pairs'})
     else:
         out += T.shard_list(3, 4, 3, 'mid', empty_nodes=True, pin=3, extra={'sub': 'trees', 'bounds': 'TREE(3,4,3) mid, empty nodes x 10 options'})
@@ -86,6 +88,8 @@ def cases(shard):
         for k, t in enumerate(T.shard_trees(shard)):
             if red:
                 yield {'t': t, 'm': k % len(METAS), 'o': 1}
+            elif shard.get('quick'):
+                yield {'t': t, 'm': k % len(METAS), 'o': 2}
             else:
                 yield {'t': t, 'm': k % len(METAS)}
     elif sub == 'meta':
@@ -140,7 +144,7 @@ def check(case, ctx):
         t = T.totuple(case['t'])
         md = METAS[case['m']]
         base = None
-        for indent, compact in (OPTIONS_REDUCED if case.get('o') else OPTIONS):
+        for indent, compact in ({1: OPTIONS_REDUCED, 2: OPTIONS_WIDE_QUICK}.get(case.get('o'), OPTIONS)):
             try:
                 s = penman.format(Tree(t, metadata=dict(md)), indent=indent, compact=compact)
                 t2 = penman.parse(s)
